@@ -31,7 +31,7 @@ def sh(cmd, cwd=None, timeout=1800, env=None):
 def make_tree(name, patch=None):
     os.makedirs(RIG, exist_ok=True)
     base = tempfile.mkdtemp(prefix=name + '-', dir=RIG)
-    wt = os.path.join(base, 'repo')
+    wt = os.path.join(base, 'repo-' + os.path.basename(base))      # unique basename: git names its worktree admin dirs after it
     rc, out = sh(['git', '-C', REPO, 'worktree', 'add', '-q', '--detach', wt, 'HEAD'])
     assert rc == 0, out
     if patch:
@@ -43,9 +43,8 @@ def make_tree(name, patch=None):
 
 
 def drop_tree(base):
-    sh(['git', '-C', REPO, 'worktree', 'remove', '--force', os.path.join(base, 'repo')])
+    sh(['git', '-C', REPO, 'worktree', 'remove', '--force', os.path.join(base, 'repo-' + os.path.basename(base))])
     shutil.rmtree(base, ignore_errors=True)
-    sh(['git', '-C', REPO, 'worktree', 'prune'])
 
 
 def confirm(name, d):
